@@ -442,7 +442,7 @@ pub fn run_schedule_ex(s: &Sched, replay: Option<(&[Vec<Action>], bool)>) -> (Ob
                     1
                 };
                 let mut pool = live.clone();
-                for _ in 0..k.min(200) {
+                for _ in 0..k.min(12) {
                     let i = match s.order {
                         0 => 0,
                         1 => pool.len() - 1,
@@ -675,7 +675,7 @@ pub fn gen_sched(master: u64, idx: u64, profile: &str) -> Sched {
         1 => Some(0),
         2 => Some(r.below(nc + 1)),
         3 | 4 => Some(r.below(3 * nc + 1)),
-        _ => Some(if evict { 105 + r.below(200) } else if long || profile == "reeval" { 60 + r.below(400) } else { 1 + r.below(40) }),
+        _ => Some(if evict { 105 + r.below(200) } else if long || profile == "reeval" { 60 + r.below(200) } else { 1 + r.below(40) }),
     };
     let val_mode = match if evict { 8 + r.below(6) } else { r.below(8) } {
         8 | 9 => ValMode::Constant,
@@ -703,7 +703,7 @@ pub fn gen_sched(master: u64, idx: u64, profile: &str) -> Sched {
     } else {
         None
     };
-    let est = budget.unwrap_or(if long { 300 } else { 30 });
+    let est = budget.unwrap_or(if long { 160 } else { 30 });
     let fail_at = if r.chance(1, 5) || profile == "fail" { Some(r.below(est.max(1) + 2)) } else { None };
     let fail2_at = if fail_at.is_some() && r.chance(1, 2) {
         Some(fail_at.unwrap() + 1 + r.below(nc + 1))
